@@ -107,6 +107,14 @@ class Interp:
                 out.add("load")
             if callee in TMP_SOURCES:
                 out.add("tmp")
+            helper = self.tree.funcs.get(callee) if callee else None
+            if helper is not None and helper.qual.startswith("ampform") and len(getattr(self, "_summarising", ())) < 4 and helper.qual not in getattr(self, "_summarising", ()):
+                # a helper of the package applied to tagged values: what it RETURNS carries the tags (a helper that
+                # returns a digest of the key - str / srepr / hash of it - does not return the key)
+                summary = self.return_tags(helper, n, st, fn)
+                if summary is not None:
+                    out |= summary
+                    return
             if isinstance(n.func, ast.Attribute) and n.func.attr == "doit":
                 inner = set()
                 self._tags(n.func.value, st, fn, inner)
@@ -114,6 +122,42 @@ class Interp:
                     out.add("doit")
         for c in ast.iter_child_nodes(n):
             self._tags(c, st, fn, out)
+
+    def return_tags(self, helper: FuncInfo, call: ast.Call, st: State, fn: FuncInfo) -> set[str] | None:
+        """Tags of the value a call of a package helper returns: parameters bound to the tags of the arguments, the
+        helper's assignments applied in textual order (flow-insensitive union), union over its returns.  None if the
+        call cannot be bound (starred arguments, generators)."""
+        a = helper.node.args
+        if a.vararg or a.kwarg or any(isinstance(x, ast.Starred) for x in call.args) or any(k.arg is None for k in call.keywords):
+            return None
+        if any(isinstance(x, (ast.Yield, ast.YieldFrom)) for x in walk_function(helper.node, nested=False)):
+            return None
+        params = [x.arg for x in [*a.posonlyargs, *a.args]]
+        if helper.cls is not None and params[:1] in (["self"], ["cls"]) and isinstance(call.func, ast.Attribute):
+            params = params[1:]
+        if len(call.args) > len(params):
+            return None
+        inner = State()
+        for p_, x in zip(params, call.args):
+            inner.tags[p_] = self.tags(x, st, fn)
+        for k in call.keywords:
+            inner.tags[k.arg] = self.tags(k.value, st, fn)
+        self._summarising = (*getattr(self, "_summarising", ()), helper.qual)
+        try:
+            returns = []
+            for node in walk_function(helper.node, nested=False):
+                if isinstance(node, ast.Assign) and len(node.targets) == 1 and isinstance(node.targets[0], ast.Name):
+                    inner.tags[node.targets[0].id] = inner.tags.get(node.targets[0].id, set()) | self.tags(node.value, inner, helper)
+                elif isinstance(node, ast.AnnAssign) and isinstance(node.target, ast.Name) and node.value is not None:
+                    inner.tags[node.target.id] = inner.tags.get(node.target.id, set()) | self.tags(node.value, inner, helper)
+                elif isinstance(node, ast.Return) and node.value is not None:
+                    returns.append(node.value)
+            out: set[str] = set()
+            for r in returns:
+                out |= self.tags(r, inner, helper)
+            return out
+        finally:
+            self._summarising = self._summarising[:-1]
 
     def flag(self, rule: str, key: str, node: ast.AST, what: str, detail=None) -> None:
         self.findings.setdefault(f"{rule}|{key}", (rule, key, self.tree.loc(node), what, detail))
@@ -465,8 +509,52 @@ def check_no_unbounded_wait(ctx: Check, tree: Tree) -> None:
         ctx.ok("R-NOWAIT", "src/ampform/sympy", "no loop on the perform_cached_doit path waits for the state of a file")
 
 
+_FS_ERRORS = ("FileExistsError", "FileNotFoundError", "OSError", "IOError", "PermissionError", "BlockingIOError", "IsADirectoryError", "NotADirectoryError", "EnvironmentError")
+_FS_OBSERVERS = {"exists", "is_file", "is_dir", "stat", "lstat", "access", "listdir", "iterdir", "scandir", "glob", "rglob", "isfile", "isdir", "getsize", "getmtime", "samefile"}
+
+
+def check_no_raise_on_contents(ctx: Check, tree: Tree) -> None:
+    """R-NORAISE: perform_cached_doit "never raises because of the directory's contents".  Positive evidence of the
+    opposite: a function on the cache path that RAISES where it has just learnt something about the directory - inside a
+    handler of a file-system error (`except FileExistsError: ... raise TimeoutError`, also a bare re-raise there), or
+    under a test that observes the file system (`if lock.exists(): raise`).  A re-raise in a catch-all clean-up handler
+    (`except BaseException: unlink(tmp); raise`) propagates what the OWN work raised and is not meant."""
+    from ..loader import ancestors
+
+    n = 0
+    hits = 0
+    for q in sorted(q for q in tree.funcs if q.startswith(("ampform.sympy::", "ampform.sympy._cache::"))):
+        fn = tree.funcs[q]
+        for r in [x for x in walk_function(fn.node, nested=False) if isinstance(x, ast.Raise)]:
+            n += 1
+            why = None
+            for a in ancestors(r):
+                if a is fn.node:
+                    break
+                if isinstance(a, ast.ExceptHandler) and a.type is not None and any(k in unparse(a.type) for k in _FS_ERRORS):
+                    why = f"inside `except {unparse(a.type)}`"
+                    break
+                if isinstance(a, (ast.If, ast.While)):
+                    obs = [c for c in ast.walk(a.test) if isinstance(c, ast.Call) and unparse(c.func).split(".")[-1] in _FS_OBSERVERS]
+                    if obs:
+                        why = f"under the test `{unparse(a.test)[:50]}` that observes the file system"
+                        break
+            if why is None:
+                continue
+            # only on the cache path: the function is reachable from the entry (calls, `with` items)
+            graph = tree.call_graph()
+            if q != ENTRY and q not in tree.reachable(ENTRY, graph):
+                continue
+            hits += 1
+            ctx.violation("R-NORAISE", f"{q}::raise::{unparse(r)[:60]}", tree.loc(r), f"{q}: `{unparse(r)[:70]}` {why}: the call raises because of what it finds in the cache directory",
+                          "a file left behind by a killed or concurrent process (a stale lock, a half-written entry) must lead to recomputation, not to an exception")
+    if hits == 0:
+        ctx.ok("R-NORAISE", "src/ampform/sympy", f"no raise on the perform_cached_doit path is conditioned on the contents of the cache directory ({n} raise statements in ampform.sympy / _cache judged)")
+
+
 def run(ctx: Check, tree: Tree) -> None:
     ctx.decided += [
+        "R-NORAISE: nothing on the cache path raises inside a handler of a file-system error or under a test that observes the file system",
         "R-VERIFY: every value returned by perform_cached_doit is the result of doit() or a loaded value that was compared equal to the query expression on that path",
         "R-TOLERATE: exceptions of pickle.load / opening the cache file cannot propagate out; handler paths reach recomputation",
         "R-PUBLISH: the final file name is only the destination of a rename from a process-unique temporary that has been closed; it is never opened for writing",
@@ -526,6 +614,7 @@ def run(ctx: Check, tree: Tree) -> None:
     ctx.section(check_hash_function, ctx, tree)
     ctx.section(check_foreign_deletes, ctx, tree)
     ctx.section(check_no_unbounded_wait, ctx, tree)
+    ctx.section(check_no_raise_on_contents, ctx, tree)
     # the stored key is compared with `==`: for expressions that differ only in a non-SymPy attribute that
     # comparison is decided by the hashable content (rule shared with C14)
     from .c14 import check_content_injective
